@@ -39,6 +39,9 @@ func readOnlyCallee(cl Callee) bool {
 
 // retention reports the ways in which the slice header of parameter prm may be retained
 // (stored to memory that outlives the call, returned, or handed to an unknown callee).
+// aliasDyn resolves dynamic call sites (set by the property check from the VTA call graph).
+var aliasDyn func(site ssa.CallInstruction) []*ssa.Function
+
 type retention struct {
 	what string
 	at   ssa.Instruction
@@ -157,6 +160,30 @@ func paramRetentions(fn *ssa.Function, prm ssa.Value, allowReturn bool, depth in
 				}
 				if readOnlyCallee(cl) {
 					continue
+				}
+				if cl.Fn == nil && aliasDyn != nil {
+					// interface / dynamic call: every resolved target must not retain
+					targets := aliasDyn(x)
+					if len(targets) > 0 {
+						for _, tf := range targets {
+							if tf == nil || tf.Blocks == nil || visited[tf] {
+								continue
+							}
+							visited[tf] = true
+							off := 0
+							if cc.IsInvoke() {
+								off = 1
+							}
+							for i, a := range cc.Args {
+								if a == v && i+off < len(tf.Params) {
+									for _, rr := range paramRetentions(tf, tf.Params[i+off], true, depth+1, visited) {
+										out = append(out, retention{"passed to " + funcKey(tf) + " which has it " + rr.what, r})
+									}
+								}
+							}
+						}
+						continue
+					}
 				}
 				if cl.Fn != nil && cl.Fn.Blocks != nil {
 					if visited[cl.Fn] {
